@@ -244,3 +244,22 @@ def _fac_one(n, names, links, wv, nf, cm, wl, fl, kl):
     ]
     return {"tasks": tasks, "links": [list(l) for l in links], "components": comps, "workplaces": wps, "teams": teams,
             "label": "fac:%d:%s:%s:%s:%s" % (n, cm, wl, fl, kl)}
+
+
+def rule_sensitive_specs():
+    """models whose result depends on the per-task priority rules, main workplaces and conveyor links"""
+    out = []
+    names = ["T0", "T1"]
+    for wrule, frule, wprule in (("HSV", "HSV", "SSP"), ("VC", "VC", "FSS"), ("MW", "SSP", "SSP"), ("SSP", "HSV", "FSS")):
+        tasks = [{"name": "T0", "work": 3.0, "nf": True, "wrule": wrule, "frule": frule, "wprule": wprule},
+                 {"name": "T1", "work": 2.0, "nf": True, "wrule": wrule, "frule": frule, "wprule": wprule}]
+        comps = [{"name": "C0", "tasks": [0]}, {"name": "C1", "tasks": [1]}]
+        wps = [{"name": "WP0", "cap": 1.0, "targets": [0, 1], "facilities": [{"name": "F0", "skills": {"T0": 1.0, "T1": 1.0}, "cost": 3.0}, {"name": "F1", "skills": {"T0": 2.0, "T1": 0.5}, "cost": 1.0}]},
+               {"name": "WP1", "cap": 2.0, "targets": [0, 1], "inputs": [0], "facilities": [{"name": "F2", "skills": {"T0": 0.5, "T1": 2.0}, "cost": 2.0}]}]
+        fsk = {"F0": 1.0, "F1": 1.0, "F2": 1.0}
+        teams = [{"name": "TM0", "targets": [0, 1], "workers": [
+            {"name": "W0", "skills": {"T0": 1.0, "T1": 2.0}, "fskills": dict(fsk), "cost": 3.0, "mainwp": "WP1"},
+            {"name": "W1", "skills": {"T0": 2.0, "T1": 0.5}, "fskills": dict(fsk), "cost": 1.0, "mainwp": "WP0"},
+            {"name": "W2", "skills": {"T0": 0.5, "T1": 1.0, "x": 5.0}, "fskills": dict(fsk), "cost": 2.0}]}]
+        out.append({"tasks": tasks, "links": [], "components": comps, "workplaces": wps, "teams": teams, "label": "rules:%s:%s:%s" % (wrule, frule, wprule)})
+    return out
